@@ -91,21 +91,11 @@ def run_one(case, acc):
     # resumed phase: snapshot mid-run (JSON round trip) and monitor the resumed run the same way
     rnd = random.Random(case["seed"] ^ 0xC11)
     if len(tr.ticks) >= 4 and rnd.random() < 0.5 and not tr.spec.get("responders"):
-        k = rnd.randint(2, len(tr.ticks) - 1)
-        holder = {}
-
-        def snap_hook(runner, tick):
-            holder["n"] = holder.get("n", 0) + 1
-            if holder["n"] == k and "snap" not in holder:
-                t = engine_run._CUR["trace"]
-                try:
-                    holder["snap"] = json.loads(json.dumps(t.handler.ctx.to_dict()))
-                except Exception as e:  # noqa: BLE001
-                    holder["err"] = repr(e)
-
-        engine_run.run_case(case["spec"], extra={"after_tick": snap_hook})
-        if holder.get("snap") is not None:
-            run_resumed({"seed": case["seed"], "family": case["family"], "spec": {**case["spec"], "uid_base": 1000}, "snap": holder["snap"]}, acc)
+        _tr, snaps = engine_run.run_with_snapshots(case["spec"])
+        cands = [e for e in snaps if e["snap"] is not None]
+        if cands:
+            ent = rnd.choice(cands)
+            run_resumed({"seed": case["seed"], "family": case["family"], "spec": {**case["spec"], "uid_base": 1000}, "snap": ent["snap"], "k": ent["k"]}, acc)
 
 
 def run_resumed(case2, acc):
